@@ -2,7 +2,7 @@
 generated histories run through nsim; every build step is judged offline from the recorded trace."""
 import copy, json, random
 from . import simlib, gen, model, util, core
-from .simlib import all_outs, St
+from .simlib import all_outs, St, directives
 
 
 def make_history(g, sc, rounds, allow_faults=True, allow_interrupt=True, allow_edit_running=True, change_kinds=None,
@@ -31,6 +31,8 @@ def make_history(g, sc, rounds, allow_faults=True, allow_interrupt=True, allow_e
             for s_ in st:
                 add(s_, kind="change", desc=desc)
             descs.append(desc)
+        if r.random() < 0.06:
+            add({"op": "bloatlogs"}, kind="change", desc=("bloatlogs", ""))       # same records, many times over: due for recompaction
         x = r.random()
         b = g.build_step(cur)
         if allow_faults and x < 0.15:
@@ -266,6 +268,92 @@ def run_dd_restat(ctx, focus, nscen, salt=11):
         try:
             judge.judge(scn, metas[scn["id"]], results)
             ctx.count("dyndep_restat_histories")
+        except Exception:
+            import traceback
+            traceback.print_exc()
+            ctx.inconclusive += 1
+            ctx.count("judge_exceptions")
+    simlib.run_scenarios(scenarios, handler)
+    return scenarios
+
+
+def make_late_deps_history(g, sc):
+    """A generated header that other statements know from their recorded dependencies gets `deps =` itself only later (the
+    manifest is edited), so that in the deps log its consumers come first; then the logs grow until ninja recompacts them
+    on its own during a run in which nothing else happens."""
+    r = g.r
+    cur = copy.deepcopy(sc)
+    incl = {}
+    for s in cur["stmts"]:
+        if s["kind"] == "cmd" and s["deps"] != "none":
+            for p_ in directives(cur["sources"].get(s["ins"][0], ""), "#include"):
+                incl.setdefault(p_, []).append(s)
+    cands = [s for s in cur["stmts"] if s["kind"] == "cmd" and s["deps"] == "none" and not s["generator"] and s["outs"][0] in incl]
+    if not cands:
+        return None
+    gsts = r.sample(cands, min(len(cands), r.randint(1, 2)))
+    steps, meta = [], []
+
+    def add(step, **m):
+        steps.append(step)
+        m["sc"] = copy.deepcopy(cur)
+        meta.append(m)
+
+    def b():
+        st = g.build_step(cur)
+        st["targets"] = []
+        return st
+    first = b()
+    add(first, kind="build", first=True)
+    add(dict(first, sched={"mode": "prng", "seed": r.randint(1, 10 ** 6)}), kind="rebuild")
+    for gs in gsts:
+        gs["deps"] = r.choice(("gcc", "msvc"))
+        if gs["deps"] == "gcc":
+            gs["depfile"] = gs["outs"][0] + ".d"
+    add(simlib.manifest_step(cur), kind="change", desc=("add_deps", [x["id"] for x in gsts]))
+    x = b()
+    add(x, kind="build", changes=[("add_deps", [q["id"] for q in gsts])])
+    add(dict(x, sched={"mode": "prng", "seed": r.randint(1, 10 ** 6)}), kind="rebuild")
+    for _ in range(r.randint(1, 2)):
+        add({"op": "bloatlogs"}, kind="change", desc=("bloatlogs", ""))
+        y = b()
+        add(y, kind="rebuild")            # nothing changed: the run that recompacts must do nothing else
+        add(dict(y, sched={"mode": "prng", "seed": r.randint(1, 10 ** 6)}), kind="rebuild")
+        if r.random() < 0.5:
+            st_, desc = g.change(cur, set(), kinds=["edit", "edit_hdr", "touch"])
+            for s_ in st_:
+                add(s_, kind="change", desc=desc)
+            z = b()
+            add(z, kind="build", changes=[desc])
+            add(dict(z, sched={"mode": "prng", "seed": r.randint(1, 10 ** 6)}), kind="rebuild")
+    return steps, meta
+
+
+def run_late_deps(ctx, focus, nscen, salt=13):
+    rng = random.Random(ctx.seed * 7919 + {"C01": 1, "C02": 2, "C03": 3}.get(focus, 0) + salt * 104729)
+    scenarios, metas = [], {}
+    for n in range(nscen):
+        g = gen.Gen(random.Random(rng.randint(0, 2 ** 60)), size=rng.randint(3, 7),
+                    feat=dict(deps=0.6, restat=0.15, phony=0.1, generator=0.0, chain=0.8, dyndep=0.0, early=0.0, rsp=0.05, vals=0.05))
+        sc = g.scenario("%s-%d-late-%d" % (focus, ctx.seed, n))
+        sc["defaults"] = []
+        h = make_late_deps_history(g, sc)
+        if h is None:
+            continue
+        steps, meta = h
+        scn = simlib.scenario_json(sc, steps)
+        scenarios.append(scn)
+        metas[scn["id"]] = meta
+    judge = HistoryJudge(ctx, focus)
+
+    def handler(scn, results, err):
+        if results is None:
+            ctx.inconclusive += 1
+            ctx.count("nsim_died")
+            return
+        try:
+            judge.judge(scn, metas[scn["id"]], results)
+            ctx.count("late_deps_histories")
         except Exception:
             import traceback
             traceback.print_exc()
